@@ -72,10 +72,13 @@ def hamiltonian_forms(case):
         div = lambda a: {'re': a['re'] / c, 'im': a['im'] / c} if isinstance(a, dict) else a / c
         return c * HG.build_mpo([dict(t, amp=div(t['amp'])) for t in terms], fam, N)
 
+    groups = [case['terms']] if case['nsplit'] == 1 else HG.split_terms(case['terms'], case['nsplit'])
+    for g in [case['terms']] + groups:
+        if np.linalg.norm(HG.dense_h(g, fam, N)) < 1e-12:
+            raise Reject('zero_operator')       # terms cancel exactly: generate_mpo returns an MPO without virtual charges (as in C10)
     H1 = HG.build_mpo(case['terms'], fam, N)
     if case['nsplit'] == 1:
         return H1, scaled(case['terms'], fs[0])
-    groups = HG.split_terms(case['terms'], case['nsplit'])
     return H1, [scaled(g, fs[k % len(fs)]) for k, g in enumerate(groups)]
 
 
